@@ -9,6 +9,9 @@ abstract interpreter see one spelling of constructs that mean the same:
   if C: <... return|raise|continue|break> else: R   ->   if C: <...>  ;  R      (an else after a terminating body is unnested)
   dict(a=x, b=y)                        ->  {"a": x, "b": y}
   logger.debug(...) / logging.info(...) / print(...) / warnings.warn(...) as a statement   ->   removed (diagnostic output only)
+  g = (<generator>) ; <statement using g once>   ->   generator substituted into the statement
+  return all(C for v in IT) / any(..) / not any(..) / next((E for v in IT if C), D)  ->  the explicit loop with early returns
+  reversed(range(a, b))                 ->  range(b - 1, a - 1, -1)
   f(x, p2=y)                            ->  f(x, y)                  (second pass, needs all signatures: keywords of calls to functions
                                                                       defined in the tree with one signature become positional)
 
@@ -94,6 +97,12 @@ class Normalizer(ast.NodeTransformer):
 
     def visit_Call(self, node):
         self.generic_visit(node)
+        if isinstance(node.func, ast.Name) and node.func.id == "reversed" and len(node.args) == 1 and isinstance(node.args[0], ast.Call) and isinstance(node.args[0].func, ast.Name) and node.args[0].func.id == "range" and len(node.args[0].args) in (1, 2) and not node.args[0].keywords:
+            r = node.args[0]
+            a, b = (ast.Constant(value=0), r.args[0]) if len(r.args) == 1 else (r.args[0], r.args[1])
+            one = ast.Constant(value=1)
+            new = ast.Call(func=ast.Name(id="range", ctx=ast.Load()), args=[ast.BinOp(left=b, op=ast.Sub(), right=one), ast.BinOp(left=a, op=ast.Sub(), right=one), ast.UnaryOp(op=ast.USub(), operand=one)], keywords=[])
+            return ast.copy_location(new, node)
         if isinstance(node.func, ast.Name) and node.func.id == "dict" and not node.args and node.keywords and all(k.arg for k in node.keywords):
             return ast.copy_location(ast.Dict(keys=[ast.copy_location(ast.Constant(value=k.arg), node) for k in node.keywords], values=[k.value for k in node.keywords]), node)
         return node
@@ -113,9 +122,86 @@ class Normalizer(ast.NodeTransformer):
                 return True
         return False
 
+    # ---- library calls -> explicit loops ------------------------------------------------------------------------------
+    @staticmethod
+    def _gen_parts(g):
+        """(target, iter, condition or None, element) of a one-clause generator / list comprehension"""
+        if isinstance(g, (ast.GeneratorExp, ast.ListComp)) and len(g.generators) == 1 and not g.generators[0].is_async:
+            c = g.generators[0]
+            cond = None
+            if c.ifs:
+                cond = c.ifs[0] if len(c.ifs) == 1 else ast.BoolOp(op=ast.And(), values=list(c.ifs))
+            return c.target, c.iter, cond, g.elt
+        return None
+
+    def _loopify_return(self, st: ast.Return):
+        v = st.value
+        neg = False
+        if isinstance(v, ast.UnaryOp) and isinstance(v.op, ast.Not):
+            v, neg = v.operand, True
+        mk = lambda x: ast.copy_location(x, st)
+        const = lambda b: mk(ast.Return(value=ast.copy_location(ast.Constant(value=b), st)))
+        if isinstance(v, ast.Call) and isinstance(v.func, ast.Name) and v.func.id in ("all", "any") and len(v.args) == 1 and not v.keywords:
+            parts = self._gen_parts(v.args[0])
+            if parts is not None:
+                tgt, it, cond, elt = parts
+                is_all = v.func.id == "all"
+                hit = ast.copy_location(ast.UnaryOp(op=ast.Not(), operand=elt), elt) if is_all else elt
+                test = hit if cond is None else ast.copy_location(ast.BoolOp(op=ast.And(), values=[cond, hit]), elt)
+                early = (not is_all) != neg  # value returned at the first hit
+                loop = mk(ast.For(target=tgt, iter=it, body=[mk(ast.If(test=test, body=[const(early)], orelse=[]))], orelse=[]))
+                return [loop, const(not early)]
+        # next((E for v in IT if C), D) possibly inside  <next> + k / <next> - k
+        if not neg:
+            wrap = None
+            core = v
+            if isinstance(v, ast.BinOp) and isinstance(v.op, (ast.Add, ast.Sub)) and isinstance(v.right, ast.Constant):
+                core, wrap = v.left, v
+            if isinstance(core, ast.Call) and isinstance(core.func, ast.Name) and core.func.id == "next" and len(core.args) == 2 and not core.keywords:
+                parts = self._gen_parts(core.args[0])
+                if parts is not None:
+                    tgt, it, cond, elt = parts
+                    def w(e):
+                        return e if wrap is None else ast.copy_location(ast.BinOp(left=e, op=wrap.op, right=wrap.right), wrap)
+                    body = [mk(ast.Return(value=w(elt)))]
+                    if cond is not None:
+                        body = [mk(ast.If(test=cond, body=body, orelse=[]))]
+                    loop = mk(ast.For(target=tgt, iter=it, body=body, orelse=[]))
+                    return [loop, mk(ast.Return(value=w(core.args[1])))]
+        return None
+
     def _block(self, stmts):
         kept = [st for st in stmts if not self._is_diagnostic(st)]
         stmts = kept if kept else [ast.copy_location(ast.Pass(), stmts[0])] if stmts else stmts
+        # a generator bound to a local and consumed once by the next statement
+        merged = []
+        for st in stmts:
+            if (
+                merged and isinstance(merged[-1], ast.Assign) and len(merged[-1].targets) == 1 and isinstance(merged[-1].targets[0], ast.Name)
+                and isinstance(merged[-1].value, ast.GeneratorExp)
+            ):
+                g = merged[-1].targets[0].id
+                uses = [n for n in ast.walk(st) if isinstance(n, ast.Name) and n.id == g]
+                if len(uses) == 1 and isinstance(uses[0].ctx, ast.Load):
+                    gen = merged.pop().value
+
+                    class _R(ast.NodeTransformer):
+                        def visit_Name(self, node):
+                            return gen if node.id == g else node
+
+                    st = _R().visit(st)
+            merged.append(st)
+        stmts = merged
+        looped = []
+        for st in stmts:
+            new = self._loopify_return(st) if isinstance(st, ast.Return) and st.value is not None else None
+            if new is not None:
+                for x in new:
+                    self.generic_visit(x) if False else None
+                looped.extend(new)
+            else:
+                looped.append(st)
+        stmts = looped
         flat = []
         for st in stmts:
             flat.append(st)
